@@ -5,8 +5,13 @@
 //   r     the complete register state (int[NREG])
 //   lat   interrupt latches [p0,p1,p2,pv, vaddr_hi, vaddr_lo, vctx], idle flag
 //   tm    both timers, icu  the interrupt controller (request, enables, vectors)
+//   bt    both audio ports (queue, phase, period, enable, flags), ap  both mailbox blocks (ready/data/disable per
+//         channel, semaphore, mask, signal flag), ev  every host callback of the slice in order
+//         ([0,l,r] audio frame, [1,c,0] receive-data handler of channel c, [2,0,0] semaphore handler)
 //   wr    every memory cell written during the slice with its final value
 //   out   ok | unimpl | assert | oob
+// Between slices the host side acts through the public API (SendData, RecvData, SetSemaphore, ...): one
+// "Host" line each with arguments, result, callbacks and the complete observation afterwards.
 // The same program is then run again on a fresh instance with a different slicing (and in one piece):
 // the specification has no fast-forward at all, so accepting all of them is C06.
 #include <map>
@@ -14,6 +19,7 @@
 #include "reglayout.h"
 #include "interpreter.h"
 #include "processor.cpp"
+#include "apbp.cpp"
 #include "teakra.cpp"
 
 using namespace Teakra;
@@ -32,13 +38,16 @@ struct WriteLog : VerifMemObserver {
 struct Prog {
     std::map<u32, u16> words;
     u32 at = 0;
+    u16 mbase = 0x8000;                       // where the program believes the MMIO window is
     void org(u32 a) { at = a; }
     void w(u16 v) { words[at++] = v; }
     void mov_imm_reg(u16 imm, unsigned reg) { w(0x5E00 | reg); w(imm); }
     void store_reg_at_rn(unsigned reg, unsigned rn) { w(0x1800 | (reg << 5) | rn); }   // mov reg, [rn]
     void load_rn_reg(unsigned rn, unsigned reg) { w(0x1C00 | rn | (reg << 5)); }       // mov [rn], reg
-    void mmio_write(u16 off, u16 val) { mov_imm_reg(0x8000 + off, 0); mov_imm_reg(val, 1); store_reg_at_rn(1, 0); }
-    void mmio_read_to_r(u16 off, unsigned reg) { mov_imm_reg(0x8000 + off, 0); load_rn_reg(0, reg); }
+    void mmio_write(u16 off, u16 val) { mov_imm_reg(mbase + off, 0); mov_imm_reg(val, 1); store_reg_at_rn(1, 0); }
+    void mmio_read_to_r(u16 off, unsigned reg) { mov_imm_reg(mbase + off, 0); load_rn_reg(0, reg); }
+    void data_store(u16 addr, u16 val) { mov_imm_reg(addr, 2); mov_imm_reg(val, 1); store_reg_at_rn(1, 2); }
+    void data_load(u16 addr, unsigned reg) { mov_imm_reg(addr, 2); load_rn_reg(2, reg); }
     void mov_imm_sttmod(u16 imm, unsigned idx) { w(0x0030 | idx); w(imm); }
     void br(u32 addr, unsigned cond = 0) { w(0x4180 | ((addr >> 16) << 4) | cond); w(addr & 0xFFFF); }
     void call(u32 addr, unsigned cond = 0) { w(0x41C0 | ((addr >> 16) << 4) | cond); w(addr & 0xFFFF); }
@@ -62,7 +71,7 @@ struct Prog {
 };
 
 // a random program exercising interrupts, timers, the ICU, idle loops, calls and hardware loops
-static Prog make_program(vh::Rng& rng, std::string& descr) {
+static Prog make_program(vh::Rng& rng, std::string& descr, bool io) {
     Prog p;
     const u32 MAIN = 0x0100, SUB = 0x0300, VEC = 0x0400;
     p.org(0); p.br(MAIN);
@@ -78,6 +87,10 @@ static Prog make_program(vh::Rng& rng, std::string& descr) {
     }
     // fix: handlers above may exceed 8 words; rebuild compactly
     p.words.clear();
+    // the MMIO window is moved by the first thing main does (MIU_MMIOBASE); everything else addresses the new place
+    static const u16 bases[] = {0x4000, 0xF800, 0x0800, 0xE000, 0xF000, 0xFC00};
+    u16 newbase = (io && rng.chance(1, 3)) ? bases[rng.below(6)] : 0x8000;
+    p.mbase = newbase;
     p.org(0); p.br(MAIN);
     for (int i = 0; i < 3; ++i) {
         p.org(0x0006 + 8 * i);
@@ -87,6 +100,16 @@ static Prog make_program(vh::Rng& rng, std::string& descr) {
         if (rng.chance(1, 2)) p.mmio_read_to_r(0x28 + 0x10 * rng.below(2), 4);
         if (rng.chance(1, 2)) p.mmio_write(0x202, 1u << (rng.chance(1, 2) ? 10 : 9));
         if (rng.chance(1, 4)) { p.push_reg(4); p.pop_reg(4); }
+        if (io) {   // mailbox / audio traffic from the handler: command -> reply echo, semaphore, a sample
+            if (rng.chance(1, 2)) {
+                unsigned c = rng.below(3);
+                p.mmio_read_to_r(0xC2 + 4 * c, 4);
+                if (rng.chance(2, 3)) { p.mov_imm_reg(p.mbase + 0xC0 + 4 * rng.below(3), 0); p.store_reg_at_rn(4, 0); }
+            }
+            if (rng.chance(1, 3)) p.mmio_write(0xCC, 1u << rng.below(16));
+            if (rng.chance(1, 3)) p.mmio_write(0x2C6 + (rng.chance(1, 6) ? 0x80 : 0), rng.u16());
+            if (rng.chance(1, 3)) p.mmio_write(0x202, (1u << 14) | (1u << 11));
+        }
         use_ctx[i] ? p.retic() : p.reti();
     }
     bool vctx = rng.chance(1, 3);
@@ -101,9 +124,10 @@ static Prog make_program(vh::Rng& rng, std::string& descr) {
 
     p.org(MAIN);
     p.mov_imm_reg(0x1000 + rng.below(0x100), 13);             // sp
+    if (newbase != 0x8000) { p.mbase = 0x8000; p.mmio_write(0x11E, newbase); p.mbase = newbase; }
     // ICU routing: which irq goes to which line
     u16 en[3] = {0, 0, 0}, ven = 0;
-    for (unsigned irq : {10u, 9u, 14u, 3u}) {
+    for (unsigned irq : {10u, 9u, 14u, 3u, 11u}) {
         unsigned c = rng.below(6);
         if (c < 3) en[c] |= 1u << irq;
         else if (c == 3) ven |= 1u << irq;
@@ -111,7 +135,7 @@ static Prog make_program(vh::Rng& rng, std::string& descr) {
     }
     for (int i = 0; i < 3; ++i) p.mmio_write(0x206 + 2 * i, en[i]);
     p.mmio_write(0x20C, ven);
-    for (unsigned irq : {10u, 9u, 14u, 3u}) {
+    for (unsigned irq : {10u, 9u, 14u, 3u, 11u}) {
         p.mmio_write(0x212 + 4 * irq, (VEC >> 16) | (vctx ? 0x8000 : 0));
         p.mmio_write(0x214 + 4 * irq, VEC & 0xFFFF);
     }
@@ -127,13 +151,25 @@ static Prog make_program(vh::Rng& rng, std::string& descr) {
         p.mmio_write(0x20 + 0x10 * i, cfg);
         if (mode == 3 && rng.chance(1, 2)) p.mmio_write(0x22 + 0x10 * i, 1);
     }
+    if (io) {   // audio ports and mailbox configuration
+        for (int i = 0; i < 2; ++i) {
+            if (rng.chance(1, i ? 4 : 1)) p.mmio_write(0x2BE + 0x80 * i, rng.chance(1, 4) ? 0x8000 : 1);
+            for (unsigned k = 0, n = rng.below(i ? 3 : 20); k < n; ++k) p.mmio_write(0x2C6 + 0x80 * i, rng.u16());
+            if (rng.chance(1, 4)) p.mmio_write(0x2A2 + 0x80 * i, rng.u16());
+            if (rng.chance(1, 4)) p.mmio_write(0x2C2 + 0x80 * i, rng.u16());
+        }
+        if (rng.chance(1, 2)) p.mmio_write(0xD4, (rng.chance(1, 3) ? 0x100 : 0) | (rng.chance(1, 3) ? 0x1000 : 0) | (rng.chance(1, 3) ? 0x2000 : 0) | (rng.u16() & 4));
+        if (rng.chance(1, 3)) p.mmio_write(0xCE, rng.chance(1, 2) ? rng.u16() : (1u << rng.below(16)));
+        if (rng.chance(1, 3)) p.mmio_write(0xC0 + 4 * rng.below(3), rng.u16());
+        if (rng.chance(1, 4)) p.mmio_write(0xD6 + 2 * rng.below(2), rng.u16());
+    }
     // interrupt masks: mod3 = crep|cpc|ccnta defaults, im bits, ic bits, ie
     u16 mod3 = 0xE000 | (rng.below(16) << 8) | (rng.chance(4, 5) ? 0x80 : 0);
     for (int i = 0; i < 3; ++i) if (use_ctx[i]) mod3 |= 1u << (1 + i);
     p.mov_imm_sttmod(mod3, 7);
     if (rng.chance(1, 3)) p.mmio_write(0x204, 1u << 3);         // software trigger
     // body
-    unsigned kind = rng.below(6);
+    unsigned kind = io ? 6 + rng.below(4) : rng.below(6);
     descr = "kind" + std::to_string(kind);
     switch (kind) {
     case 0: // pure idle
@@ -166,6 +202,60 @@ static Prog make_program(vh::Rng& rng, std::string& descr) {
             p.modr_inc(3);
             p.nop();
         }
+        p.brr(-1);
+        break;
+    }
+    case 6: { // poll the status registers, echo commands, feed the audio queue, clear semaphore bits
+        u32 top = p.at;
+        p.mmio_read_to_r(0xD6 + 2 * rng.below(2), 4);
+        p.mmio_read_to_r(0x2C2, 5);
+        p.mmio_write(0x2C6, rng.u16());
+        if (rng.chance(1, 2)) { p.mmio_read_to_r(0xC2 + 4 * rng.below(3), 4); p.mov_imm_reg(p.mbase + 0xC0 + 4 * rng.below(3), 0); p.store_reg_at_rn(4, 0); }
+        if (rng.chance(1, 2)) { p.mmio_read_to_r(0xD2, 4); p.mov_imm_reg(p.mbase + 0xD0, 0); p.store_reg_at_rn(4, 0); }
+        if (rng.chance(1, 3)) p.mmio_write(0xCC, rng.u16());
+        if (rng.chance(1, 4)) p.mmio_write(0x2CA, 1);
+        p.inc(0);
+        p.br(top);
+        break;
+    }
+    case 7: // idle: everything happens in the handlers, woken by the host and the audio port
+        p.brr(-1);
+        break;
+    case 8: { // mask / unmask the semaphore and read the mirrors in a counting loop
+        u32 top = p.at;
+        p.mmio_write(0xCE, rng.u16());
+        p.mmio_read_to_r(0xCE, 4); p.mmio_read_to_r(0xD8, 5); p.mmio_read_to_r(0xC0 + 4 * rng.below(3), 4);
+        p.mmio_write(0xCE, 0);
+        p.mmio_read_to_r(0x2BE, 4); p.mmio_read_to_r(0x2A2 + 0x80, 5); p.mmio_read_to_r(0x2CA, 4);
+        p.inc(0);
+        p.br(top);
+        break;
+    }
+    case 9: { // paging: x/y pages with page mode 1, then the z page; stores and loads around the X/Y boundary;
+              // pages above 1 and MMIO accesses with a non-zero z page end in the emulator's assertion
+        static const u16 xss[] = {0x20, 0x10, 0x3F, 0x01, 0x00};
+        u16 xs = xss[rng.below(5)];
+        auto page = [&]() -> u16 { return rng.chance(1, 10) ? 2 + rng.below(3) : rng.below(2); };
+        p.mmio_write(0x114, xs | (rng.below(64) << 8) | (rng.u16() & 0xC0C0));
+        if (rng.chance(1, 3)) p.mmio_write(0x116, rng.u16());
+        p.mmio_write(0x10E, page()); p.mmio_write(0x110, page());
+        p.mmio_write(0x11A, 0x40 | (rng.u16() & 0x17));
+        auto somewhere = [&]() -> u16 {
+            u16 b = xs * 0x400;
+            static const int d[] = {-1, 0, 1};
+            u16 a = rng.chance(1, 2) ? (u16)(b + d[rng.below(3)]) : rng.u16();
+            if (a >= p.mbase && (u32)a < (u32)p.mbase + 0x800) a = (u16)(p.mbase - 1 - rng.below(16));
+            return a;
+        };
+        for (unsigned k = 0, n = 2 + rng.below(4); k < n; ++k) { u16 a = somewhere(); p.data_store(a, rng.u16()); p.data_load(a, 4); }
+        p.mmio_read_to_r(0x114, 4); p.mmio_read_to_r(0x11A, 5); p.mmio_read_to_r(0x10E + 2 * rng.below(3), 4);
+        if (rng.chance(2, 3)) {
+            p.mmio_write(0x11A, rng.u16() & 0x17);          // back to page mode 0
+            p.mmio_write(0x112, page());                    // z page: with 1 the next MMIO access asserts
+            for (unsigned k = 0, n = 1 + rng.below(3); k < n; ++k) { u16 a = somewhere(); p.data_store(a, rng.u16()); p.data_load(a, 5); }
+            if (rng.chance(1, 2)) p.mmio_read_to_r(0x112, 4);
+        }
+        p.inc(0);
         p.brr(-1);
         break;
     }
@@ -222,6 +312,7 @@ static Prog make_loop_program(vh::Rng& rng, std::string& descr) {
 struct Inst {
     std::unique_ptr<Teakra::Teakra> t;
     WriteLog log;
+    std::vector<std::array<int, 3>> ev;   // host callbacks since the last observation, in order
     auto& impl() { return *TeakraVerifAccess::impl(*t); }
     auto& interp() { return TeakraVerifAccess::interpreter(*TeakraVerifAccess::impl(TeakraVerifAccess::processor(impl()))); }
 };
@@ -255,11 +346,55 @@ static void observe(vh::Out& o, Inst& in) {
                      vh::arr(icu.vector_context_switch.begin(), icu.vector_context_switch.end()) + "}");
 }
 
+static void observe_io(vh::Out& o, Inst& in, std::vector<std::array<int, 3>>& ev) {
+    std::string bt = "[";
+    for (int i = 0; i < 2; ++i) {
+        Btdmp& b = in.impl().btdmp[i];
+        auto q = TeakraVerifAccess::transmit_queue(b);
+        std::vector<int> qs;
+        while (!q.empty()) { qs.push_back(q.front()); q.pop(); }
+        if (i) bt += ',';
+        bt += "{\"q\":" + vh::arr(qs.begin(), qs.end()) + ",\"tm\":" + std::to_string(TeakraVerifAccess::transmit_timer(b)) +
+              ",\"pd\":" + std::to_string(TeakraVerifAccess::transmit_period(b)) + ",\"en\":" + std::to_string(TeakraVerifAccess::transmit_enable(b)) +
+              ",\"em\":" + std::to_string(TeakraVerifAccess::transmit_empty(b) ? 1 : 0) + ",\"fu\":" + std::to_string(TeakraVerifAccess::transmit_full(b) ? 1 : 0) +
+              ",\"cc\":" + std::to_string(TeakraVerifAccess::transmit_clock_config(b)) + "}";
+    }
+    const MemoryInterfaceUnit& m = in.impl().miu;
+    o.raw("miu", "{\"base\":" + std::to_string(m.mmio_base) + ",\"z\":" + std::to_string(m.z_page) + ",\"pm\":" + std::to_string(m.page_mode) +
+                     ",\"xp\":" + std::to_string(m.x_page) + ",\"yp\":" + std::to_string(m.y_page) + ",\"xs\":" + vh::arr(m.x_size.begin(), m.x_size.end()) +
+                     ",\"ys\":" + vh::arr(m.y_size.begin(), m.y_size.end()) + "}");
+    o.raw("bt", bt + "]");
+    std::string ap = "[";
+    Apbp* aps[2] = {&in.impl().apbp_from_cpu, &in.impl().apbp_from_dsp};
+    for (int i = 0; i < 2; ++i) {
+        auto& ai = *TeakraVerifAccess::impl(*aps[i]);
+        int rdy[3], dat[3], dis[3];
+        for (int c = 0; c < 3; ++c) {
+            rdy[c] = TeakraVerifAccess::ready(ai.data_channels[c]) ? 1 : 0;
+            dat[c] = TeakraVerifAccess::data(ai.data_channels[c]);
+            dis[c] = TeakraVerifAccess::disable_interrupt(ai.data_channels[c]);
+        }
+        if (i) ap += ',';
+        ap += "{\"rdy\":" + vh::arr(rdy, rdy + 3) + ",\"dat\":" + vh::arr(dat, dat + 3) + ",\"dis\":" + vh::arr(dis, dis + 3) +
+              ",\"sem\":" + std::to_string(ai.semaphore) + ",\"msk\":" + std::to_string(ai.semaphore_mask) + ",\"sig\":" +
+              std::to_string(ai.semaphore_master_signal ? 1 : 0) + "}";
+    }
+    o.raw("ap", ap + "]");
+    std::string e = "[";
+    for (size_t i = 0; i < ev.size(); ++i) { if (i) e += ','; e += vh::arr(ev[i].begin(), ev[i].end()); }
+    o.raw("ev", e + "]");
+    ev.clear();
+}
+
 static void fresh(Inst& in) {
     Teakra::UserConfig cfg;
     in.t = std::make_unique<Teakra::Teakra>(cfg);
-    in.t->SetAudioCallback([](std::array<s16, 2>) {});
+    auto* ev = &in.ev;
+    in.t->SetAudioCallback([ev](std::array<s16, 2> f) { ev->push_back({0, (int)(u16)f[0], (int)(u16)f[1]}); });
+    for (int c = 0; c < 3; ++c) in.t->SetRecvDataHandler(c, [ev, c] { ev->push_back({1, c, 0}); });
+    in.t->SetSemaphoreHandler([ev] { ev->push_back({2, 0, 0}); });
     in.t->Reset();
+    in.ev.clear();
     // the ICU has no reset and its vector tables no initialiser: give the run a defined start and let the
     // New line carry it (C17 looks at the uninitialised case separately)
     ICU& icu = in.impl().icu;
@@ -277,7 +412,12 @@ int main(int argc, char** argv) {
     long programs = a.n;
     for (long pi = 0; pi < programs; ++pi) {
         std::string descr;
-        Prog prog = a.mode == "loops" ? make_loop_program(rng, descr) : make_program(rng, descr);
+        bool io = a.mode == "io" || (a.mode != "loops" && rng.chance(1, 3));
+        Prog prog = a.mode == "loops" ? make_loop_program(rng, descr) : make_program(rng, descr, io);
+        // the audio transmit period has no register (4096 cycles after reset): shorten it so that frames, the
+        // empty interrupt and queue refills happen within the budget; the New line carries the value
+        unsigned period[2] = {io ? (rng.chance(1, 8) ? 4096u : 2 + rng.below(60)) : 4096u, io ? 1 + rng.below(40) : 4096u};
+        u64 host_seed = rng.next();
         unsigned total = rng.chance(1, 5) ? 300 + rng.below(3000) : 60 + rng.below(400);
         // slicings: one piece, single steps for a prefix then the rest, random slices, twos/threes
         std::vector<std::vector<unsigned>> slicings;
@@ -292,7 +432,9 @@ int main(int argc, char** argv) {
         for (auto& sl : slicings) {
             Inst in;
             fresh(in);
-            o.begin(); o.str("e", "New"); o.str("prog", descr.c_str()); observe(o, in); o.end();
+            for (int i = 0; i < 2; ++i) in.impl().btdmp[i].SetTransmitPeriod((u16)period[i]);
+            vh::Rng hrng(host_seed);
+            o.begin(); o.str("e", "New"); o.str("prog", descr.c_str()); observe(o, in); observe_io(o, in, in.ev); o.end();
             std::string lw = "[";
             bool first = true;
             for (auto& kv : prog.words) {
@@ -308,18 +450,78 @@ int main(int argc, char** argv) {
                 if (dead) break;
                 in.log.written.clear();
                 const char* out = "ok";
+                std::string why;
                 try { in.t->Run(n); }
                 catch (const UnimplementedException&) { out = "unimpl"; dead = true; }
-                catch (const TeakraVerifAssert&) { out = "assert"; dead = true; }
+                catch (const TeakraVerifAssert& e) { out = "assert"; dead = true; why = std::string(e.expression) + " @" + e.file + ":" + std::to_string(e.line); }
                 if (in.log.oob) { out = "oob"; dead = true; }
                 o.begin(); o.str("e", "Run"); o.num("n", n);
-                observe(o, in);
+                if (!why.empty()) o.str("why", why.c_str());
+                observe(o, in); observe_io(o, in, in.ev);
                 std::string wr = "[";
                 bool f2 = true;
                 for (auto& kv : in.log.written) { if (!f2) wr += ','; f2 = false; wr += "[" + std::to_string(kv.first) + "," + std::to_string(kv.second) + "]"; }
                 o.raw("wr", wr + "]");
                 o.str("out", out);
                 o.end();
+                // the host acts between two Run calls
+                for (unsigned hk = 0, hn = (io && !dead && hrng.chance(1, 2)) ? 1 + hrng.below(3) : 0; hk < hn; ++hk) {
+                    static const char* ops[] = {"SendData", "SendData", "SendData", "RecvData", "RecvData", "RecvDataIsReady", "SendDataIsEmpty",
+                                                "SetSemaphore", "SetSemaphore", "ClearSemaphore", "MaskSemaphore", "GetSemaphore", "PeekRecvData",
+                                                "DataWrite", "DataRead", "DataWriteBypass", "DataReadBypass", "DataWriteA32", "DataReadA32",
+                                                "ProgramWrite", "ProgramRead", "MMIOWrite", "MMIORead", "DataWrite", "DataRead"};
+                    // registers the host pokes: timers, ICU, MIU, mailboxes, audio ports, plain cells (none of the unmodelled AHBM/DMA ones)
+                    static const u16 offs[] = {0x20, 0x22, 0x24, 0x26, 0x28, 0x2A, 0x30, 0x34, 0x38, 0x1A, 0x200, 0x202, 0x204, 0x206, 0x208, 0x20A, 0x20C,
+                                               0x212, 0x214, 0x23A, 0x23C, 0x10E, 0x110, 0x112, 0x114, 0x116, 0x11A, 0xC0, 0xC2, 0xC4, 0xC6, 0xC8, 0xCA,
+                                               0xCC, 0xCE, 0xD0, 0xD2, 0xD4, 0xD6, 0xD8, 0x2A2, 0x2BE, 0x2C2, 0x2C6, 0x2CA, 0x322, 0x33E, 0x342, 0x346,
+                                               0x34A, 0x00, 0x02, 0x101, 0x7FE, 0x7FF, 0x300};
+                    auto moff = [&]() -> u16 { return offs[hrng.below(sizeof(offs) / sizeof(offs[0]))]; };
+                    auto mval = [&](u16 off) -> u16 {   // values that keep the machine alive most of the time
+                        if (off == 0x10E || off == 0x110 || off == 0x112) return hrng.chance(1, 12) ? 2 : hrng.below(2);
+                        if (off == 0x20 || off == 0x30) return (hrng.below(4) << 2) | (hrng.u16() & 0x700);
+                        return hrng.u16();
+                    };
+                    const MemoryInterfaceUnit& mu = in.impl().miu;
+                    // (registers of the peripherals System.tla does not model -- AHBM 0xE0.., DMA 0x184, 0x18C, 0x1BE.. -- are left alone)
+                    auto unmodelled = [&](u16 a) { if (!mu.InMMIO(a)) return false; u16 off = (a - mu.mmio_base) & 0x7FF;
+                                                   return (off >= 0xE0 && off <= 0xF3) || off == 0x184 || off == 0x18C || (off >= 0x1BE && off <= 0x1DF); };
+                    auto daddr = [&]() -> u16 { u16 a = hrng.chance(1, 2) ? (u16)(mu.mmio_base + moff()) : hrng.chance(1, 2) ? (u16)(mu.x_size[0] * 0x400 + hrng.below(3) - 1) : hrng.u16();
+                                                return unmodelled(a) ? (u16)(mu.mmio_base + 0x300 + (a & 0xF)) : a; };
+                    const char* hout = "ok";
+                    std::string op = ops[hrng.below(sizeof(ops) / sizeof(ops[0]))];
+                    unsigned ha = 0, hb = 0; long ret = 0;
+                    in.log.written.clear();
+                    if (op == "SendData") { ha = hrng.below(3); hb = hrng.u16(); in.t->SendData(ha, hb); }
+                    else if (op == "RecvData") { ha = hrng.below(3); ret = in.t->RecvData(ha); }
+                    else if (op == "RecvDataIsReady") { ha = hrng.below(3); ret = in.t->RecvDataIsReady(ha) ? 1 : 0; }
+                    else if (op == "SendDataIsEmpty") { ha = hrng.below(3); ret = in.t->SendDataIsEmpty(ha) ? 1 : 0; }
+                    else if (op == "SetSemaphore") { ha = hrng.chance(1, 2) ? (1u << hrng.below(16)) : hrng.u16(); in.t->SetSemaphore(ha); }
+                    else if (op == "ClearSemaphore") { ha = hrng.chance(1, 2) ? 0xFFFF : hrng.u16(); in.t->ClearSemaphore(ha); }
+                    else if (op == "MaskSemaphore") { ha = hrng.chance(1, 2) ? 0 : hrng.u16(); in.t->MaskSemaphore(ha); }
+                    else if (op == "GetSemaphore") { ret = in.t->GetSemaphore(); }
+                    else if (op == "PeekRecvData") { ha = hrng.below(3); ret = in.t->PeekRecvData(ha); }
+                    else try {
+                        if (op == "DataWrite") { ha = daddr(); hb = mval((u16)(ha - mu.mmio_base)); in.t->DataWrite(ha, hb); }
+                        else if (op == "DataRead") { ha = daddr(); ret = in.t->DataRead(ha); }
+                        else if (op == "DataWriteBypass") { ha = daddr(); hb = hrng.u16(); in.t->DataWrite(ha, hb, true); }
+                        else if (op == "DataReadBypass") { ha = daddr(); ret = in.t->DataRead(ha, true); }
+                        else if (op == "DataWriteA32") { ha = hrng.chance(1, 2) ? hrng.below(0x20000) : (hrng.below(0x100) << 16) | hrng.u16(); hb = hrng.u16(); in.t->DataWriteA32(ha, hb); }
+                        else if (op == "DataReadA32") { ha = hrng.chance(1, 2) ? hrng.below(0x20000) : (hrng.below(0x100) << 16) | hrng.u16(); ret = in.t->DataReadA32(ha); }
+                        else if (op == "ProgramWrite") { ha = hrng.chance(1, 2) ? 0x20000 + hrng.below(0x20000) : 0x1000 + hrng.below(0x3F000); hb = hrng.u16(); in.t->ProgramWrite(ha, hb); }
+                        else if (op == "ProgramRead") { ha = hrng.below(0x40000); ret = in.t->ProgramRead(ha); }
+                        else if (op == "MMIOWrite") { ha = moff() + (hrng.chance(1, 4) ? 0x800 * hrng.below(31) : 0); hb = mval((u16)(ha & 0x7FF)); in.t->MMIOWrite(ha, hb); }
+                        else if (op == "MMIORead") { ha = moff() + (hrng.chance(1, 4) ? 0x800 * hrng.below(31) : 0); ret = in.t->MMIORead(ha); }
+                    } catch (const TeakraVerifAssert&) { hout = "assert"; dead = true; }
+                    if (in.log.oob) { hout = "oob"; dead = true; }
+                    o.begin(); o.str("e", "Host"); o.str("op", op.c_str()); o.num("a", ha); o.num("b", hb); o.num("ret", ret);
+                    observe(o, in); observe_io(o, in, in.ev);
+                    std::string hw = "[";
+                    bool f3 = true;
+                    for (auto& kv : in.log.written) { if (!f3) hw += ','; f3 = false; hw += "[" + std::to_string(kv.first) + "," + std::to_string(kv.second) + "]"; }
+                    o.raw("wr", hw + "]"); o.str("out", hout);
+                    o.end();
+                    if (dead) break;
+                }
             }
             verif_mem_observer = nullptr;
         }
